@@ -176,6 +176,7 @@ def check(chk: Check) -> None:
     index_guards(chk, R4, acc)
     _membership(chk, R5)
     _fresh_literals(chk)
+    _one_slot(chk)
 
     # --------------------------------------------------------------------- R3
     sites = lookup_sites(chk)
@@ -225,6 +226,41 @@ def _fresh_literals(chk: Check) -> None:
                     'same object' % ', '.join(bad) if bad else 'builds a node that makes the container when it is evaluated')
     if n == 0:
         raise AnalysisError('anchor vanished: no production starts with an opening bracket or brace')
+    # ... holding exactly the elements written: the table function the list literal is lowered to returns its arguments as a list
+    # whatever they are (a builder that converts a single container flattens [[1, 2]] and [pair])
+    from .c07 import list_literal_builder
+    list_literal_builder(chk, R6, functab.table(F))
+
+
+def _one_slot(chk: Check) -> None:
+    """`c[k] = v`, `c[k] op= v`, `c[k]` and `del c[k]` address one slot of one container.  That is the case when the tree built for
+    the statement holds the container expression and the key expression once each: a desugaring that mentions them twice (read
+    through one copy, write through the other) evaluates them twice, and with `hits[todo.pop()] += 1` the read and the write land
+    in different slots."""
+    F = chk.facts
+    R7 = chk.rule('C14.R7', 'one slot per keyed statement: the tree of every index form (read, write, compound write, del) contains the '
+                            'container sub-expression and the key sub-expression exactly once', floor=3)
+    g = C.grammar(F)
+    lm = C.lexmodel(F)
+    T = C.templates(F)
+    n = 0
+    for t in T.all():
+        rhs = t.prod.rhs
+        if t.raises is not None or not any(lm.token_texts.get(s_) == {'['} and i_ > 0 for i_, s_ in enumerate(rhs)):
+            continue        # index forms: a bracket that follows something
+        syms = A.symbols_in(t.result)
+        seen = {}
+        for pos, sym in syms:
+            seen[pos] = seen.get(pos, 0) + 1
+        twice = sorted('$%s (%s)' % (pos, rhs[int(pos.split('.')[0]) - 1] if pos.split('.')[0].isdigit() and int(pos.split('.')[0]) <= len(rhs) else '?')
+                       for pos, k in seen.items() if k > 1)
+        n += 1
+        chk.require(not twice, R7, t.key, '%s:%d' % (g.module.rel, t.prod.line),
+                    'the tree mentions %s more than once: that sub-expression is evaluated once per mention, so its side effects are repeated and '
+                    'the read and the write of a compound index assignment can address different slots' % ', '.join(twice) if twice else
+                    'every part of the statement occurs once in the tree')
+    if n == 0:
+        raise AnalysisError('anchor vanished: no production with an index bracket builds a tree')
 
 
 def _membership(chk: Check, R5: str) -> None:
